@@ -1,6 +1,83 @@
-import HranoModel.Model.Options
-import HranoModel.Model.Sink
-import HranoModel.Model.Chan
-/-! C13 property theorems (statements only in this file; helper lemmas live in Lemmas/) -/
+import HranoModel.Lemmas.Csv
+import HranoModel.Lemmas.Fixed
+import HranoModel.Lemmas.Sort
+import HranoModel.Model.App
+/-!
+C13 — CSV exports are lossless and machine-readable.
+
+Property theorems only (helper lemmas: `Lemmas/Csv.lean`, `Lemmas/Fixed.lean`).  The writer model is
+`Report.csvField / csvRecord` (encoding/csv's quoting rule, LF record end, separator and precisions from
+`Facts.lean`); the reader is the independent RFC 4180 reader of `Spec/Csv.lean` (it accepts LF record ends
+only, which is what Go writes — stated, not hidden).
+-/
 namespace Hrano.C13
+open Hrano Hrano.Report Hrano.Csv Hrano.Num
+
+/-- **Lossless.**  Whatever bytes the fields hold — commas, quotes, CR, LF, non-ASCII text — reading what was
+    written gives back exactly the rows that were written. -/
+theorem csv_roundtrip (rows : List (List Bytes)) (h : ∀ r ∈ rows, r ≠ []) :
+    Csv.read sep (rows.map csvRecord).flatten = some rows := by
+  unfold Csv.read
+  apply readAll_write rows _ h
+  -- every record is at least its LF
+  have : ∀ rs : List (List Bytes), rs.length ≤ ((rs.map csvRecord).flatten).length := by
+    intro rs
+    induction rs with
+    | nil => simp
+    | cons r rs ih =>
+      simp only [List.map_cons, List.flatten_cons, List.length_append, List.length_cons, csvRecord_eq]
+      omega
+  have := this rows
+  omega
+
+/-- the log export: one row per (day, distinct food) in file order, `[ISO date, name, amount]` -/
+theorem csv_log_rows (days : List LogDay) :
+    App.perDay renderCsvLog days
+      = ((days.map (fun d => d.elements.map (fun e =>
+          [Date.format isoLayout d.date, e.name, fmtFixed Facts.csvLogPrecision e.value]))).flatten.map csvRecord).flatten := by
+  induction days with
+  | nil => rfl
+  | cons d ds ih =>
+    simp only [App.perDay, List.map_cons, List.flatten_cons, List.map_append, List.flatten_append] at ih ⊢
+    rw [ih]
+    simp only [renderCsvLog, List.map_map]
+    rfl
+
+/-- the raw / resolved book export: one row per entry, `[recipe, element, amount]` -/
+theorem csv_db_rows (header : Bytes) (els : Elements) :
+    renderCsvDb header els = ((els.map (fun e => [header, e.name, fmtFixed Facts.csvDbPrecision e.value])).map csvRecord).flatten := by
+  simp only [renderCsvDb, List.map_map]
+  rfl
+
+/-- dates are ISO formatted whatever `--date-format` says (the export does not consult it) -/
+theorem csv_dates_iso : isoLayout = [.year4, .lit 45, .month2, .lit 45, .day2] := by decide
+
+/-- the resolved export lists recipes in name order -/
+theorem csv_resolved_sorted (db : Book) : ((sortBook db).map (·.1)).Pairwise (fun a b => Bytes.le a b = true) := by
+  rw [Srt.sortBook_eq]
+  exact List.pairwise_map.mpr (Srt.sortBy_sorted (fun kv : Bytes × Elements => kv.1) db)
+
+/-- … and loses no recipe -/
+theorem csv_resolved_perm (db : Book) : (sortBook db).Perm db := by
+  rw [Srt.sortBook_eq]; exact Srt.sortBy_perm _ db
+
+/-- **Fixed precision within half a unit of the last digit**: with `k` the printed digits of `|q|` at `p`
+    decimals, `|k / 10^p − |q|| ≤ 1 / (2·10^p)`, stated without division:
+    `2·|k·den − |num|·10^p| ≤ den`. -/
+theorem amount_within_half_ulp (p : Nat) (q : Q) :
+    2 * (roundedAt p q * q.den) ≤ 2 * (q.num.natAbs * 10 ^ p) + q.den
+    ∧ 2 * (q.num.natAbs * 10 ^ p) ≤ 2 * (roundedAt p q * q.den) + q.den :=
+  roundHalfEven_close _ _ (Rat.den_pos q)
+
+/-- the printed amount is the sign, the integer part and exactly `p` decimals of those digits -/
+theorem amount_fixed_precision (p : Nat) (q : Q) :
+    fmtFixed p q = (if q.num < 0 then [45] else []) ++ Bytes.natDigits (roundedAt p q / 10 ^ p)
+      ++ (if p == 0 then [] else 46 :: Bytes.natPad p (roundedAt p q % 10 ^ p)) := by
+  simp [fmtFixed, fixedDigits, List.append_assoc]
+
+/-! non-vacuity: names with a comma, quotes, CR, a leading blank and non-ASCII bytes -/
+example : Csv.read sep ([[[97, 44, 98], [34, 113, 34], [50]], [[32, 120], [13], [0xD0, 0xBF]]].map csvRecord).flatten
+    = some [[[97, 44, 98], [34, 113, 34], [50]], [[32, 120], [13], [0xD0, 0xBF]]] := by decide
+example : fmtFixed 3 ((1 : Q) / 16) = [48, 46, 48, 54, 50] := by decide +kernel      -- 0.0625 → 0.062 (half to even)
+
 end Hrano.C13
